@@ -333,12 +333,13 @@ class Impl(object):
             reg = (c in s.connections)
             conns.append('%d:ak=%s:closing=%s:gone=%s:reg=%s:paused=%s:pending=%d:buf=%d:active=[%s]' % (
                 cid, ak, str(t.closing).lower(), str(t.gone).lower(), str(reg).lower(), str(t.paused).lower(),
-                len(self.pending.get(cid, [])), len(c.unpacker.buf), act))
+                len(self.pending.get(cid, [])), compat.unconsumed(c.unpacker), act))
         rev = {id(c): cid for cid, c in self.conns.items()}
         subs = []
         for ch in chans:
             members = s.subscriptions.get(ch.decode('utf-8'), []) if ch.decode('utf-8') in s.subscriptions else []
-            subs.append('%s=[%s]' % (hexf(ch), ','.join(str(rev[id(m)]) for m in members)))
+            # the registry is compared as a multiset: its container type and order are not observable
+            subs.append('%s=[%s]' % (hexf(ch), ','.join(str(x) for x in sorted(rev[id(m)] for m in members))))
         g = []
         for l in labels:
             for ch in chans:
